@@ -1,56 +1,95 @@
 (* C01 -- parser results do not depend on how the byte stream is fragmented.
-   Final statements only (closed by [exact]); for EVERY callee record and both state machines. *)
+   Final statements only (closed by [exact]); every theorem holds for EVERY callee record (start-line /
+   URI parser, header-semantics hooks, content decoder, RFC 2047 decoder, Trailer element parser) and for
+   both state machines. *)
 From Coq Require Import ZArith.
-From Httoop Require Import Model.Parser Proofs.ParserFrag Corr.Parser.
+From Httoop Require Import Model.Parser Proofs.ParserFuel Proofs.ParserFrag Proofs.ParserSim Proofs.ParserBridge Corr.Parser.
 
-(* The reference machine: the implementation's state machine with its three buffer-dependent shortcuts
-   switched off -- no bare-LF line-end fallback (finding D14), no 411 peek at the octets behind a message
-   (D13), header sections parsed when complete instead of line-wise as they arrive (D34). *)
-Definition ref_cfg : config := reference.
+(* [real] is the implementation's machine.  [reference] has its three buffer-dependent shortcuts switched
+   off: no bare-LF line-end fallback (finding D14), no 411 peek at the octets behind a message (D13), header
+   sections parsed when complete (not line-wise as they arrive, D34); [eager_reference] keeps the line-wise
+   header parsing. *)
 
-(* Part A (unconditional, all streams incl. truncated / hostile ones, all 2^(n-1) fragmentations):
-   the messages completed, the first error, and -- when there is no error -- the whole final state
-   (octets left over and the message in progress) of the reference machine are a function of the
-   concatenated stream alone. *)
+(* Part A (unconditional; all streams incl. truncated and hostile ones, all 2^(n-1) fragmentations):
+   completed messages, first error and -- when there is no error -- the whole final state of the reference
+   machine are a function of the concatenated stream alone; any fragmentation equals the single call. *)
 Theorem C01_reference_fragmentation_independent :
   forall (C : callees) (k : kind) (frags1 frags2 : list bytes),
   concat_bytes frags1 = concat_bytes frags2 ->
-  run_keep ref_cfg C k init frags1 = run_keep ref_cfg C k init frags2.
-Proof. intros C k. exact (fragmentation_independent ref_cfg C k eq_refl eq_refl eq_refl). Qed.
+  run_keep reference C k init frags1 = run_keep reference C k init frags2.
+Proof. intros C k. exact (fragmentation_independent reference C k eq_refl eq_refl eq_refl). Qed.
 Print Assumptions C01_reference_fragmentation_independent.
 
-(* any fragmentation equals the single call with everything *)
 Theorem C01_reference_equals_one_call :
   forall (C : callees) (k : kind) (frags : list bytes),
-  run_keep ref_cfg C k init frags = parse ref_cfg C k init (concat_bytes frags).
+  run_keep reference C k init frags = parse reference C k init (concat_bytes frags).
 Proof.
-  intros C k frags. apply (run_keep_is_one_call ref_cfg C k eq_refl eq_refl eq_refl).
-  - apply init_quiescent.
-  - exact I.
-  - exact I.
+  intros C k frags. apply (run_keep_is_one_call reference C k eq_refl eq_refl eq_refl); [apply init_quiescent | exact I | exact I].
 Qed.
 Print Assumptions C01_reference_equals_one_call.
 
-(* the step lemma everything rests on: feeding a ++ b in one call = feeding a, then b *)
-Theorem C01_parse_app :
-  forall (C : callees) (k : kind) s a b, ParserFuel.wf_st s -> crlf_st s ->
-  parse ref_cfg C k s (a ++ b) =
-  match parse ref_cfg C k s a with
-  | (s1, m1, None) => let '(s2, m2, e) := parse ref_cfg C k s1 b in (s2, m1 ++ m2, e)
-  | (_, m1, Some e) => (init, m1, Some e)
+(* Part B: line-wise header parsing simulates the reference machine: same completed messages, same error --
+   or it has refused an invalid header line (400) while the reference machine can only keep waiting inside
+   that header section or refuse it the same way ([doomed]). *)
+Theorem C01_eager_simulates_reference :
+  forall (C : callees) (k : kind) (frags : list bytes),
+  match run_keep reference C k init frags with
+  | (_, ms, Some e) => run_keep eager_reference C k init frags = (init, ms, Some e)
+  | (sl', ms, None) => (exists se', run_keep eager_reference C k init frags = (se', ms, None) /\ Rst se' sl') \/
+                       (run_keep eager_reference C k init frags = (init, ms, Some (EHttp 400)) /\ doomed sl')
   end.
-Proof. intros C k. exact (parse_app ref_cfg C k eq_refl eq_refl eq_refl). Qed.
-Print Assumptions C01_parse_app.
+Proof. intros C k frags. apply run_sim; [reflexivity | exact I | exact I]. Qed.
+Print Assumptions C01_eager_simulates_reference.
 
-(* non-vacuity: a pipelined chunked request + a GET, cut in the middle of a chunk, on the reference machine *)
-Definition ex_tables : tables := {|
-  t_start := [(X "504f5354202f20485454502f312e31", SlOk {| p11 := true; nobody := false |});
-              (X "474554202f20485454502f312e31", SlOk {| p11 := true; nobody := true |})];
-  t_hdrs := [((true, [(X "486f7374", X "78"); (X "5472616e736665722d456e636f64696e67", X "6368756e6b6564")]), HOk);
-             ((true, [(X "486f7374", X "78")]), HOk)];
+(* Part C = the property for the implementation's machine, on runs in which it never selects the bare-LF
+   line end and never raises the 411 peek (quiet_run: computable, and compared with the implementation's own
+   flags in every correspondence run).  frag_equiv: same completed messages; same first error, or one run
+   has already refused an invalid header line while the other still waits inside that unfinished header
+   section (finding D34, truncated streams only); no error and no message in progress => same octets left. *)
+Theorem C01_fragmentation_partial :
+  forall (C : callees) (k : kind) (frags1 frags2 : list bytes),
+  concat_bytes frags1 = concat_bytes frags2 ->
+  quiet_run C k init frags1 = true -> quiet_run C k init frags2 = true ->
+  frag_equiv (run_keep real C k init frags1) (run_keep real C k init frags2).
+Proof. exact real_fragmentation. Qed.
+Print Assumptions C01_fragmentation_partial.
+
+(* the only permitted difference: the erroring call hands out nothing *)
+Theorem C01_handed_out :
+  forall (C : callees) (k : kind) (cfg : config) (frags : list bytes) (s : pstate),
+  let '(s1, handed, e1) := ParserFraming.feed cfg C k s frags in
+  let '(s2, completed, e2) := run_keep cfg C k s frags in
+  e1 = e2 /\ (e1 = None -> handed = completed /\ s1 = s2) /\ exists dropped, completed = handed ++ dropped.
+Proof. intros C k cfg frags s. exact (feed_vs_keep C k cfg frags s). Qed.
+Print Assumptions C01_handed_out.
+
+(* ---------- witnesses: the three side conditions are necessary (known findings), and the hypotheses are satisfiable ---------- *)
+Definition GETL := X "474554202f20485454502f312e31".
+Definition T : tables := {|
+  t_start := [(GETL, SlOk {| p11 := true; nobody := true |}); (X "474554202f20485454502f312e310a486f73743a2078", SlErr 400);
+              (X "504f5354202f20485454502f312e31", SlOk {| p11 := true; nobody := false |})];
+  t_hdrs := [((true, [(X "486f7374", X "78")]), HOk);
+             ((true, [(X "486f7374", X "78"); (X "5472616e736665722d456e636f64696e67", X "6368756e6b6564")]), HOk)];
   t_decode := []; t_2047 := []; t_trailer := [] |}.
-Definition ex_stream := X "504f5354202f20485454502f312e310d0a486f73743a20780d0a5472616e736665722d456e636f64696e673a206368756e6b65640d0a0d0a330d0a6162630d0a300d0a0d0a474554202f20485454502f312e310d0a486f73743a20780d0a0d0a".
-Example C01_example :
-  (let '(_, ms, e) := run_keep ref_cfg (callees_of ex_tables) Server init [firstn 70 ex_stream; skipn 70 ex_stream] in (length ms, e))
-  = (2%nat, None).
-Proof. vm_compute. reflexivity. Qed.
+Definition per_octet (l : bytes) : list bytes := map (fun c => [c]) l.
+Definition res (r : pstate * list msg * option err) := let '(s, ms, e) := r in (length ms, e).
+
+Definition S_LF := X "474554202f20485454502f312e310a486f73743a20780d0a0d0a".
+Theorem C01_lf_refuted : res (run_keep real (callees_of T) Server init [S_LF]) <> res (run_keep real (callees_of T) Server init (per_octet S_LF)).
+Proof. vm_compute. discriminate. Qed.
+
+Definition S_411 := X "474554202f20485454502f312e310d0a486f73743a20780d0a0d0a474554202f20485454502f312e310d0a486f73743a20780d0a0d0a".
+Theorem C01_411_refuted : res (run_keep real (callees_of T) Server init [S_411]) <> res (run_keep real (callees_of T) Server init (per_octet S_411)).
+Proof. vm_compute. discriminate. Qed.
+
+Definition S_34 := X "474554202f20485454502f312e310d0a4261640d0a580d0a2059".
+Theorem C01_truncated_header_refuted :
+  res (run_keep eager_reference (callees_of T) Server init [S_34]) <> res (run_keep eager_reference (callees_of T) Server init [firstn 22 S_34; skipn 22 S_34]).
+Proof. vm_compute. discriminate. Qed.
+
+(* a pipelined chunked POST + GET, whole and cut inside a chunk: both runs are quiet and deliver two messages *)
+Definition S_OK := X "504f5354202f20485454502f312e310d0a486f73743a20780d0a5472616e736665722d456e636f64696e673a206368756e6b65640d0a0d0a330d0a6162630d0a300d0a0d0a474554202f20485454502f312e310d0a486f73743a20780d0a0d0a".
+Example C01_hypotheses_satisfiable :
+  quiet_run (callees_of T) Server init [S_OK] = true /\ quiet_run (callees_of T) Server init [firstn 70 S_OK; skipn 70 S_OK] = true /\
+  res (run_keep real (callees_of T) Server init [firstn 70 S_OK; skipn 70 S_OK]) = (2%nat, None).
+Proof. vm_compute. auto. Qed.
